@@ -3,12 +3,13 @@ Require Import Value Bytes Sha2 GenRot RotModel GenDat DatModel DatProofs DatCre
 Import ListNotations.
 Local Open Scope N_scope.
 
-(* C15: the RoT key of a created credential is the configured key at the used index, and the RoT meta names it: RSA -- the
+(* C15: a created credential has a 16-byte uuid and a DCK of the RoT key's type and size; the RoT key of a created credential is the configured key at the used index, and the RoT meta names it: RSA -- the
    keys SHA-256 record is the entry at that index; ECC / EdgeLock -- the flags word carries the used index and the key count. *)
 Theorem dc_names_rot_key :
   forall ele cnt socc ks rot_id dck uuid socu vu beacon fca c d,
   dc_create ele cnt socc ks rot_id dck uuid socu vu beacon fca = Ok (c, d) ->
   nth_error ks (N.to_nat rot_id) = Some (d_rot d) /\ d_dck d = dck /\ d_uuid d = uuid /\ d_socc d = socc /\
+  length uuid = 16%nat /\ is_ecc_key dck = is_ecc_key (d_rot d) /\ key_bits dck = key_bits (d_rot d) /\
   match c with
   | CRsa => exists items it, d_meta d = RMRsa items /\ map_res dc_rsa_item ks = Ok items
                              /\ nth_error items (N.to_nat rot_id) = Some it /\ dc_rsa_item (d_rot d) = Ok it
